@@ -5,7 +5,7 @@ import treegen, lexgen
 
 PID = "C01"
 TARGETS = ["Run.vo", "Lexer_proofs.vo", "Tree_proofs.vo"]
-IMPORTS = "From VF Require Import Base Show Gen_Errors Lexer Response Tree Scripted Run."
+IMPORTS = "From VF Require Import Base Show Gen_Errors Lexer Response Conv Tree Scripted Run."
 ALLOWED_AXIOMS = []
 PROFILES = ["debug", "release"]
 RULE = ("random command trees (depth <= 3, default nodes, suffixed siblings) whose handlers pull 0..4 parameters, each with a random "
@@ -77,8 +77,9 @@ def generate(rng, tier):
                 m = bytes(rng.randrange(256) for _ in range(ln)) if rng.random() < 0.5 else b"".join(rng.choice(lexgen.CLASS_BYTES) for _ in range(ln))
             msgs.append(m)
         # typed pulls: implementation-only; raw pulls: also against the model (messages batched per tree)
+        modelled = all((":" not in o) or (o.split(":")[1] in treegen.PTY) for e, q in ty.values() for o in e + q)
         for i in range(0, len(msgs), 6):
-            out.append(mk(treegen.case_line("v", sub, ty, msgs[i:i + 6]), model=False))
+            out.append(mk(treegen.case_line("v", sub, ty, msgs[i:i + 6]), model=modelled))
         for i in range(0, len(msgs), 10):
             out.append(mk(treegen.case_line("v", sub, tg.scripts, msgs[i:i + 10]), model=True))
     # exhaustive small strings behind header prefixes against a fixed tree with typed handlers
@@ -99,7 +100,10 @@ def generate(rng, tier):
 
 
 def harness_line(c): return c["line"]
-def case_of_line(l): return mk(l, model=(":" not in l.split(" ")[3]))   # typed pulls contain `:`
+def case_of_line(l):
+    import re
+    tys = re.findall(r"[roRO]:([a-z0-9]+)", l.split(" ")[3])
+    return mk(l, model=all(t in treegen.PTY for t in tys))
 
 
 def coq_term(c):
